@@ -204,6 +204,11 @@ def corpus_cases():
     # defect #15: sea-state model of the test-suite with anisotropic deltas
     yield {"part": "B", "mode": "seastate", "alpha": 0.01, "limits": [[0, 20], [0, 18]], "deltas": [0.2, 0.8]}
     yield {"part": "B", "mode": "seastate", "alpha": 0.01, "limits": [[0, 20], [0, 18]], "deltas": [0.4, 0.4]}
+    # a REAL highest-density region with a hole (four modes around a dip): one connected region, two boundary
+    # components (outer and inner contour); the code returns a list of two coordinate sets
+    yield {"part": "B", "mode": "mixture", "alpha": 0.1, "gen": "ring-real-model",
+           "model": [[[1.2, 2.0], [1.2, 7.0]], [[1.2, 2.0], [1.2, 7.0]]], "limits": [[0.0, 12.0], [0.0, 12.0]],
+           "deltas": [0.25, 0.5]}
     # anisotropic lattice rectangle outline: 2-NN graph falls apart into vertical pairs/triples
     xs, ys = [], []
     for i in range(12):
@@ -229,6 +234,7 @@ def gen_sorter_cases(rng, n, thorough):
         npts = int(rng.integers(8, 401 if big else (120 if not thorough else 200)))
         if rng.integers(0, 12) == 0:
             npts = int(rng.integers(1, 8))  # tiny point sets (1..7 points) are planar point sets too
+        empty = rng.integers(0, 60) == 0  # ... and so is the empty one
         if kind == "circle":
             t = np.linspace(0, 2 * np.pi, npts, endpoint=False)
             x, y = np.cos(t), np.sin(t)
@@ -261,8 +267,18 @@ def gen_sorter_cases(rng, n, thorough):
         if rng.integers(0, 2) and kind != "lattice":
             p = rng.permutation(len(x))
             x, y = x[p], y[p]
+        if empty:
+            x, y = x[:0], y[:0]
         opt = bool(rng.integers(0, 2)) and len(x) <= (150 if not thorough or rng.integers(0, 10) else 300)
-        yield {"part": "C", "kind": kind, "x": [float(v) for v in x], "y": [float(v) for v in y], "opt": opt}
+        # the container the points arrive in ("array_like"): float ndarray (what HighestDensityContour passes), Python
+        # list / tuple, integer ndarray (coordinates on an integer lattice), list for x and ndarray for y
+        x_as = str(rng.choice(["ndarray", "ndarray", "ndarray", "list", "tuple", "int-ndarray", "mixed"]))
+        if x_as == "int-ndarray":
+            sc = float(rng.choice([1, 10, 100]))
+            xs, ys = [int(v) for v in np.round(np.asarray(x) * sc)], [int(v) for v in np.round(np.asarray(y) * sc)]
+        else:
+            xs, ys = [float(v) for v in x], [float(v) for v in y]
+        yield {"part": "C", "kind": kind, "x": xs, "y": ys, "opt": opt, "x_as": x_as}
 
 
 # -- real models for part B -----------------------------------------------------------------
@@ -363,8 +379,11 @@ def gen_hdc_cases(rng, n, thorough):
         b = max(R / (cap * r) for R, r in zip(rng_d, ratio)) * float(rng.uniform(1.0, 1.3))
         deltas = [b * r for r in ratio]
         limits = [[l[0], max(l[1], l[0] + 4 * d)] for l, d in zip(limits, deltas)]
-        yield {"part": "B", "mode": mode, "alpha": alpha, "model": mdesc, "limits": limits, "deltas": deltas,
-               "ratio": ratio}
+        case = {"part": "B", "mode": mode, "alpha": alpha, "model": mdesc, "limits": limits, "deltas": deltas,
+                "ratio": ratio, "limits_form": str(rng.choice(["tuples", "tuples", "lists", "reversed"]))}
+        if len(set(deltas)) == 1 and rng.integers(0, 2):
+            case["deltas"] = deltas[0]  # "float or list of float": a scalar applies to every axis
+        yield case
 
 
 def gen_default_cases(rng, n):
@@ -383,6 +402,93 @@ def gen_default_cases(rng, n):
         # default limits/deltas (0.25 % of the range, 400 cells per axis), coarsened 8x to stay in budget
         yield {"part": "B", "mode": "doubles", "alpha": alpha, "model": m.describe(), "gen": "default-limits",
                "limits": [[float(a), float(b)] for a, b in c.limits], "deltas": [float(d) * 8 for d in c.deltas]}
+
+
+def limits_arg(case):
+    """the `limits=` argument in the form the case asks for: list of (min, max) tuples (default), of [min, max]
+    lists, or of (max, min) tuples (the code takes min()/max() of each entry)"""
+    form = case.get("limits_form", "tuples")
+    if form == "lists":
+        return [list(l) for l in case["limits"]]
+    if form == "reversed":
+        return [(l[1], l[0]) for l in case["limits"]]
+    return [tuple(l) for l in case["limits"]]
+
+
+def deltas_of(case, n_dim, impl=None):
+    """the cell sizes of a case as a list (a scalar applies to every axis; None: the object's defaults)"""
+    d = case.get("deltas")
+    if d is None:
+        return [float(v) for v in np.atleast_1d(impl["deltas"])] if impl is not None else None
+    if np.isscalar(d):
+        return [float(d)] * n_dim
+    return [float(v) for v in d]
+
+
+def gen_default_path_cases(rng, n):
+    """the `limits=None` / `deltas=None` branches themselves: the oracle runs on the object the defaults produce (its
+    own grid: 401 cells per axis with default deltas); coarse alpha keeps the contour short"""
+    import doubles
+    import models
+
+    for k in range(n):
+        mode = "doubles" if k % 2 == 0 else "table"
+        m = doubles.random_model(rng, n_dim=2) if mode == "doubles" else models.random_fam_model(rng, n_dim=2)
+        case = {"part": "B", "mode": mode, "alpha": float(10 ** rng.uniform(-1.2, -0.55)), "model": m.describe(),
+                "gen": "default-path", "limits": None, "deltas": None, "mc_seed": int(rng.integers(0, 2**31))}
+        which = k % 3
+        if which == 1:
+            # default limits, explicit (scalar or list) deltas: cell size from a pre-run of the defaults, coarsened
+            with warnings.catch_warnings():
+                warnings.simplefilter("ignore")
+                try:
+                    with np.errstate(all="ignore"):
+                        hi = [float(m.build().marginal_icdf(1 - 0.04 * case["alpha"], i, 0.05)) for i in range(2)]
+                except Exception:  # noqa: BLE001
+                    hi = [10.0, 10.0]
+            d = [h / float(rng.integers(40, 90)) for h in hi]
+            case["deltas"] = max(d) if rng.integers(0, 2) else d
+        elif which == 2:
+            # explicit limits with a non-zero lower end, default deltas (0.25 % of max - min)
+            with warnings.catch_warnings():
+                warnings.simplefilter("ignore")
+                with np.errstate(all="ignore"):
+                    smp = m.build().draw_sample(20000, random_state=int(rng.integers(0, 2**31)))
+            lim = []
+            for i in range(2):
+                col = smp[:, i][np.isfinite(smp[:, i])]
+                lim.append([float(rng.choice([0.1, 0.25])), max(float(np.quantile(col, 1 - case["alpha"] / 8)), 1.0)])
+            case["limits"] = lim
+            # (not "reversed": (max, min) entries are tolerated by _compute (min()/max()) but are outside the documented
+            # form (min, max); with default deltas the range comes out negative and the grid empty - IndexError)
+            case["limits_form"] = str(rng.choice(["tuples", "lists"]))
+        yield case
+
+
+def gen_unreachable_cases(rng, n):
+    """limits that hold clearly less than 1 - alpha of the probability: the documented fall-back (RuntimeWarning, the
+    whole grid as region) and the coordinates it returns"""
+    import doubles
+    import models
+
+    for k in range(n):
+        n_dim = 2 if k % 3 else 3
+        mode = "doubles" if k % 2 == 0 else "table"
+        m = doubles.random_model(rng, n_dim=n_dim) if mode == "doubles" else models.random_fam_model(rng, n_dim=n_dim)
+        with warnings.catch_warnings():
+            warnings.simplefilter("ignore")
+            with np.errstate(all="ignore"):
+                smp = m.build().draw_sample(20000, random_state=int(rng.integers(0, 2**31)))
+        lim = []
+        for i in range(n_dim):
+            col = smp[:, i][np.isfinite(smp[:, i])]
+            # the first axis stops at the 40 % quantile: at most 0.4 < 1 - alpha inside, whatever the other axes do
+            q = float(np.quantile(col, 0.4 if i == 0 else 0.9))
+            lim.append([0.0, max(q, 1e-3)])
+        cells = int(rng.integers(4, 14 if n_dim == 2 else 7))
+        deltas = [(l[1] - l[0]) / cells * float(rng.choice([1.0, 1.0, 2.0])) for l in lim]
+        yield {"part": "B", "mode": mode, "alpha": float(rng.uniform(0.01, 0.3)), "model": m.describe(), "gen": "unreachable",
+               "limits": lim, "deltas": deltas}
 
 
 def build_model(case):
@@ -404,6 +510,7 @@ def run_hdc(case):
     """real contour; returns dict(coords, axes, region, rec) or dict(err)"""
     cls = hdc_classes()
     proxy = ndi_proxy()
+    icdf_calls, warned = [], []
     try:
         with warnings.catch_warnings():
             warnings.simplefilter("ignore")
@@ -416,11 +523,42 @@ def run_hdc(case):
                     fallback = reg
                 else:
                     cls["Rec"].rec = None
-                    c = cls["Rec"](build_model(case), case["alpha"], limits=[tuple(l) for l in case["limits"]],
-                                   deltas=list(case["deltas"]))
+                    model = build_model(case)
+                    kw = {}
+                    if case.get("limits") is not None:
+                        kw["limits"] = limits_arg(case)
+                    if case.get("deltas") is not None:
+                        kw["deltas"] = case["deltas"] if np.isscalar(case["deltas"]) else list(case["deltas"])
+                    if case.get("mc_seed") is not None:
+                        # default limits come from a Monte-Carlo marginal_icdf: fix its stream (replayable) and
+                        # record how it was asked
+                        orig_icdf, orig_draw = model.marginal_icdf, model.draw_sample
+
+                        def seeded_draw(n, *a, random_state=None, **k2):
+                            return orig_draw(n, *a, random_state=case["mc_seed"] if random_state is None else random_state, **k2)
+
+                        def rec_icdf(p, dim, precision_factor=1, **k2):
+                            v = orig_icdf(p, dim, precision_factor, **k2)
+                            icdf_calls.append((float(p), int(dim), float(precision_factor), float(v)))
+                            return v
+
+                        model.draw_sample = seeded_draw
+                        model.marginal_icdf = rec_icdf
+                    with warnings.catch_warnings(record=True) as wlist:
+                        warnings.simplefilter("always")
+                        c = cls["Rec"](model, case["alpha"], **kw)
+                    warned = [str(w.message) for w in wlist if issubclass(w.category, RuntimeWarning)
+                              and "could not be reached" in str(w.message)]
                     fallback = cls["Rec"].rec
-    except IndexError:
-        return {"err": "emptySelection"}
+    except IndexError as e:
+        # C02's known finding: the densest cell alone exceeds 1 - alpha, nothing is selected and
+        # cumsum_biggest_until indexes an empty array. An IndexError from anywhere else is a failure of its own.
+        import traceback
+
+        frames = [f.name for f in traceback.extract_tb(e.__traceback__)]
+        if "cumsum_biggest_until" in frames:
+            return {"err": "emptySelection"}
+        return {"err": "IndexError", "msg": f"IndexError in {frames[-1]}: {e}"}
     except ValueError as e:
         return {"err": "ValueError", "msg": str(e), "rec": dict(proxy.rec)}
     rec = dict(proxy.rec)
@@ -429,7 +567,67 @@ def run_hdc(case):
         region = np.asarray(rec["erosion_in"]) != 0
     else:
         region = np.ones([len(a) for a in axes], dtype=bool) if fallback is None else fallback
-    return {"coords": c.coordinates, "axes": axes, "region": region, "rec": rec}
+    return {"coords": c.coordinates, "axes": axes, "region": region, "rec": rec, "limits": c.limits, "deltas": c.deltas,
+            "icdf_calls": icdf_calls, "warned_not_reached": warned, "selection_recorded": fallback is not None}
+
+
+def grid_correspondence(ck, case, impl, region):
+    """the grid a real HighestDensityContour builds from its arguments, against the documented rule (reference
+    model = the docstring: limits default to (0, marginal_icdf(1 - 0.2^n alpha, dim, precision_factor=0.05)), deltas to
+    0.25 % of the range, a scalar delta applies to every axis, each limits entry is used as (min, max) whatever its
+    order; cell centres = arange(min, max + delta, delta)); and the documented fall-back when 1 - alpha is not reached"""
+    n_dim = region.ndim
+    lim, dl, axes = impl["limits"], impl["deltas"], impl["axes"]
+    d = None
+    try:
+        lim_f = [(float(min(l)), float(max(l))) for l in lim]
+        dl_f = [float(v) for v in np.atleast_1d(dl)]
+        if case.get("limits") is None:
+            ck.count("B_grid:default-limits")
+            want_p = 1 - 0.2 ** n_dim * case["alpha"]
+            calls = impl["icdf_calls"]
+            if [(c[0], c[1], c[2]) for c in calls] != [(want_p, i, 0.05) for i in range(n_dim)]:
+                d = (f"default limits: marginal_icdf asked for {[(c[0], c[1], c[2]) for c in calls]}, documented "
+                     f"{[(want_p, i, 0.05) for i in range(n_dim)]}")
+            elif [(float(l[0]), f2b(l[1])) for l in lim] != [(0.0, f2b(c[3])) for c in calls]:
+                d = f"default limits {lim} are not (0, marginal_icdf value) {[c[3] for c in calls]}"
+        else:
+            ck.count("B_grid:limits-form=" + case.get("limits_form", "tuples"))
+            want = [(float(min(l)), float(max(l))) for l in case["limits"]]
+            if lim_f != want:
+                d = f"limits used {lim_f}, given {case['limits']} ({case.get('limits_form', 'tuples')})"
+        if d is None:
+            if case.get("deltas") is None:
+                ck.count("B_grid:default-deltas")
+                want_d = [(float(l[1]) - float(l[0])) * 0.0025 for l in lim]
+                if len(dl_f) != n_dim or [f2b(v) for v in dl_f] != [f2b(v) for v in want_d]:
+                    d = f"default deltas {dl_f}, documented 0.25 % of the range of the limits {lim}: {want_d}"
+            else:
+                ck.count("B_grid:deltas=" + ("scalar" if np.isscalar(case["deltas"]) else "list"))
+                if [f2b(v) for v in dl_f] != [f2b(v) for v in deltas_of(case, n_dim)]:
+                    d = f"deltas used {dl_f}, given {case['deltas']}"
+        if d is None:
+            for i in range(n_dim):
+                want_ax = np.arange(lim_f[i][0], lim_f[i][1] + dl_f[i], dl_f[i])
+                if len(want_ax) != len(axes[i]) or not np.array_equal(want_ax, axes[i]):
+                    d = (f"axis {i}: {len(axes[i])} cell centres [{axes[i][0] if len(axes[i]) else None} ..], expected "
+                         f"arange({lim_f[i][0]}, {lim_f[i][1]} + {dl_f[i]}, {dl_f[i]}) = {len(want_ax)} centres")
+                    break
+    except Exception as e:  # noqa: BLE001
+        d = f"grid attributes unreadable: {type(e).__name__}: {e}"
+    if d is None and case.get("gen") == "unreachable":
+        # limits that hold less than 1 - alpha: documented fall-back = warning + the whole grid as region
+        ck.count("B_grid:limits-cannot-reach-1-alpha")
+        if not impl["warned_not_reached"]:
+            d = "limits hold less than 1 - alpha of the probability, but no RuntimeWarning 'could not be reached' was issued"
+        elif not region.all():
+            d = f"fall-back after the warning: region has {int(region.sum())} of {region.size} cells, documented: all"
+        else:
+            ck.count("B_grid:fallback-region-is-whole-grid")
+    elif impl["warned_not_reached"]:
+        ck.count("B_grid:fallback-by-chance")
+    if d is not None:
+        ck.diverge("hdc-grid-from-arguments", case, d)
 
 
 def boundary_by_definition(region):
@@ -511,7 +709,7 @@ def parse_sorter(ans):
     return {"closed": t[1] == "1", "start": int(t[2]), "order": [int(v) for v in t[4:4 + k]]}
 
 
-def sorter_phase1(ck, case, x, y, opt, out, tag):
+def sorter_phase1(ck, case, x, y, opt, out, tag, given_start=False, knn_xy=None):
     """oracle for one call of the real sorter (`out` = (xx, yy) it returned); returns the context for the
     model comparison (or None)"""
     x, y = np.asarray(x, dtype=float), np.asarray(y, dtype=float)
@@ -519,7 +717,9 @@ def sorter_phase1(ck, case, x, y, opt, out, tag):
     xx, yy = np.asarray(out[0], dtype=float), np.asarray(out[1], dtype=float)
     inp = Counter((f2b(a), f2b(b)) for a, b in zip(x, y))
     got = Counter((f2b(a), f2b(b)) for a, b in zip(xx, yy))
-    knn = knn_lists(x, y)
+    # (the k-NN leaf is evaluated on the points as the code sees them: sklearn breaks distance ties differently for
+    # integer and float input)
+    knn = knn_lists(*(knn_xy if knn_xy is not None else (x, y)))
     comp = n_components(n, knn) if knn else 0
     bad = None
     if inp != got:
@@ -531,12 +731,25 @@ def sorter_phase1(ck, case, x, y, opt, out, tag):
         if tag:
             sig["via"] = tag
         ck.fail(sig, case, bad)
+    if n == 0:
+        ck.count("sorter_empty_point_set(permutation clause only; the model has no start node)")
+        return None
     if knn is None:
         ck.count("C_knn_rows_not_2")
         return None
     ck.count("sorter_graph=" + ("disconnected" if comp > 1 else "connected"))
+    impl_seq = [(f2b(a), f2b(b)) for a, b in zip(xx, yy)]
+    start = 0
+    if given_start:
+        # contour too long for the model's O(n^2) search of the optimal start: the model runs from the start the
+        # implementation chose (pairwise different points: the index is unique), the ORDER is compared
+        opt = False
+        cands = [i for i in range(n) if impl_seq and (f2b(x[i]), f2b(y[i])) == impl_seq[0]]
+        if len(cands) != 1:
+            return None
+        start = cands[0]
     return {"case": case, "x": x, "y": y, "opt": opt, "knn": knn, "bad": bad,
-            "impl_seq": [(f2b(a), f2b(b)) for a, b in zip(xx, yy)], "line": sorter_line(x, y, knn, opt)}
+            "impl_seq": impl_seq, "line": sorter_line(x, y, knn, opt, start)}
 
 
 def sorter_phase2(ck, ctx, answer):
@@ -649,6 +862,12 @@ def hdc_phase1(ck, case):
             return
         if impl["err"] == "emptySelection":
             return  # C02's known finding (densest cell > 1-alpha), not about coordinates
+        if case.get("limits_form") == "reversed":
+            # (max, min) entries are outside the documented form: that the code orders them is part of the grid
+            # correspondence, not a clause of the property
+            ck.diverge("hdc-grid-from-arguments", case, f"limits given as (max, min): {impl.get('msg', impl['err'])}; "
+                                                        f"the code as modelled takes min()/max() of each entry")
+            return
         ck.fail({"entry": ENTRY_HDC, "predicate": "coordinates_returned"}, case, impl.get("msg", impl["err"]))
         return
     region, axes, rec = impl["region"], impl["axes"], impl["rec"]
@@ -656,7 +875,7 @@ def hdc_phase1(ck, case):
     shape = list(region.shape)
     bnd = boundary_by_definition(region)
     n_b = int(bnd.sum())
-    anis = len({round(float(d), 12) for d in case["deltas"]}) > 1
+    anis = len({round(float(d), 12) for d in deltas_of(case, n_dim, impl)}) > 1
     ck.case({k: v for k, v in case.items()}, nontrivial=n_b >= 3 and 0 < int(region.sum()), sample=ck.evaluations < 3)
     ck.count(f"{part}_n_dim={n_dim}")
     ck.count(f"{part}_deltas=" + ("anisotropic" if anis else "isotropic"))
@@ -668,6 +887,8 @@ def hdc_phase1(ck, case):
         ck.count(f"{part}_region_touches_grid_border")
     sets = coordinate_sets(impl["coords"], n_dim)
     ck.count(f"{part}_n_sets=" + (str(len(sets)) if len(sets) < 3 else "3+"))
+    if part == "B":
+        grid_correspondence(ck, case, impl, region)
     # ---- oracle on the returned coordinates ---------------------------------------------
     bad = []
     centres = Counter(tuple(f2b(axes[d][i[d]]) for d in range(n_dim)) for i in zip(*np.nonzero(bnd)))
@@ -693,6 +914,13 @@ def hdc_phase1(ck, case):
                 if len({inv[r] for r in s}) != 1:
                     bad.append(("one_coordinate_set_per_region", "a coordinate set mixes two components"))
                     break
+    # a region with a hole (or a cavity) is ONE connected region with SEVERAL boundary components: the code returns one
+    # set per boundary component, which is the reading checked above (see ck.partial "regions with holes")
+    n_reg = len(set(boundary_components(region).values())) if int(region.sum()) <= 6000 else None
+    if n_reg is not None and n_comp > n_reg:
+        ck.count(f"{part}_region_with_hole(more boundary components than regions; one set per boundary component)")
+        if n_reg == 1:
+            ck.count(f"{part}_region_with_hole:single-connected-region-returned-as-{'list-of-sets' if len(sets) > 1 else 'one-array'}")
     for pred, detail in bad:
         sig = {"entry": ENTRY_HDC, "predicate": pred}
         if pred == "coordinates_are_boundary_cell_centres_each_once" and len(sets) == 1 and n_dim == 2:
@@ -785,6 +1013,10 @@ def hdc_phase2(ck, ctx, answer):
             ck.count(f"{part}_sorted_order_compared")
             return sorter_phase1(ck, case, x, y, True, (out[:, 0], out[:, 1]), "HighestDensityContour")
         ck.count(f"{part}_sorted_order_too_large_for_model")
+        if len(x) <= (1500 if ck.tier == "quick" else 4000):
+            out = np.asarray(impl["coords"], dtype=float)
+            ck.count(f"{part}_sorted_order_compared_from_the_start_the_code_chose")
+            return sorter_phase1(ck, case, x, y, True, (out[:, 0], out[:, 1]), "HighestDensityContour", given_start=True)
     return None
 
 
@@ -859,18 +1091,37 @@ def sorter_case_phase1(ck, case):
     from virocon.utils import sort_points_to_form_continuous_line
 
     x, y = np.array(case["x"], dtype=float), np.array(case["y"], dtype=float)
+    x_as = case.get("x_as", "ndarray")
+    if x_as == "list":
+        xa, ya = list(case["x"]), list(case["y"])
+    elif x_as == "tuple":
+        xa, ya = tuple(case["x"]), tuple(case["y"])
+    elif x_as == "int-ndarray":
+        xa, ya = np.array(case["x"], dtype=np.int64), np.array(case["y"], dtype=np.int64)
+    elif x_as == "mixed":
+        xa, ya = list(case["x"]), y.copy()
+    else:
+        xa, ya = x.copy(), y.copy()
     ck.count("part=C")
     ck.count("C_kind=" + case["kind"])
     ck.count("C_opt=" + str(case["opt"]))
+    ck.count("C_points_passed_as=" + x_as)
+    ck.count("C_n_points=" + ("0" if len(x) == 0 else "1-2" if len(x) < 3 else "3+"))
     ck.case(case, nontrivial=len(x) >= 4 and len(set(zip(case["x"], case["y"]))) >= 3, sample=ck.dist.get("part=C", 0) <= 2)
     try:
         with warnings.catch_warnings():
             warnings.simplefilter("ignore")
-            out = sort_points_to_form_continuous_line(x, y, search_for_optimal_start=case["opt"])
+            out = sort_points_to_form_continuous_line(xa, ya, search_for_optimal_start=case["opt"])
+        out = (np.asarray(out[0], dtype=float), np.asarray(out[1], dtype=float))
+        if out[0].ndim != 1 or out[1].ndim != 1:
+            raise ValueError(f"returned coordinates of shape {out[0].shape} / {out[1].shape}")
     except Exception as e:  # noqa: BLE001
-        ck.fail({"entry": ENTRY_SORT, "predicate": "returns"}, case, f"{type(e).__name__}: {e}")
+        sig = {"entry": ENTRY_SORT, "predicate": "returns"}
+        if x_as != "ndarray":
+            sig["where"] = "points passed as " + x_as
+        ck.fail(sig, case, f"{type(e).__name__}: {e}")
         return None
-    return sorter_phase1(ck, case, x, y, case["opt"], out, "")
+    return sorter_phase1(ck, case, x, y, case["opt"], out, "", knn_xy=(xa, ya))
 
 
 def run_sorter_cases(ck, cases, chunk=100):
@@ -893,8 +1144,11 @@ def main(ck):
                "empty, single cell; 2-D up to 60^2 (thorough 400^2), 3-D up to 20^3 (thorough 60^3); isotropic and "
                "anisotropic deltas, ratios 2/5/10) injected into a real HighestDensityContour; (B) real contours on "
                "random hierarchical models (rational doubles, shipped families, bimodal mixture doubles), alpha in "
-               "[1e-6,0.3], explicit and default limits; (C) sorter on circle/ellipse/lattice/irregular/noisy/"
-               "clustered/random/duplicated point sets of 8-400 points with and without optimal-start search; (L) "
+               "[1e-6,0.3], explicit limits (tuples, lists, (max, min)) and deltas (list, scalar), the default limits "
+               "and/or default deltas themselves (oracle on the object's own 401-cell grid), limits that cannot reach "
+               "1-alpha (fall-back region); (C) sorter on circle/ellipse/lattice/irregular/noisy/"
+               "clustered/random/duplicated point sets of 0-400 points passed as float ndarray / list / tuple / integer "
+               "ndarray / mixed, with and without optimal-start search; (L) "
                "labelling of arbitrary masks. Non-trivial: region non-empty with >= 3 boundary cells / >= 4 points "
                "with >= 3 distinct; distinct by SHA1 of the case")
     ck.assumptions = [
@@ -904,6 +1158,23 @@ def main(ck):
         "a 2-D boundary component of 1 or 2 cells is returned unsorted (nothing to sort); before the repair the sorter raised ValueError there",
     ]
     ck.partial = {
+        "regions with holes": "the statement's 'single connected 2-D region -> one (N,2) array in sorter order; several "
+        "disconnected regions -> one coordinate set per region' is checked with 'region' read as CONNECTED COMPONENT OF THE "
+        "BOUNDARY MASK (3^n connectivity), which is what the anchors name and what _compute labels. Taken literally (region = "
+        "connected component of the enclosed set of cells) the statement does NOT hold for a region with a hole: the unchanged "
+        "code returns a ring-shaped region (one connected region) as a LIST of two unsorted coordinate sets, outer and inner "
+        "contour (witness: corpus case ring-real-model, 4-mode mixture, alpha 0.1, deltas (0.25, 0.5); counter "
+        "*_region_with_hole:single-connected-region-returned-as-list-of-sets). This is treated as an imprecision of the "
+        "wording, not as a defect of virocon: two closed contours cannot be one continuous line. The boundary-cell clause "
+        "(every boundary cell centre exactly once) is checked for such regions without any reading",
+        "grid from the arguments": "default limits = (0, marginal_icdf(1 - 0.2^n alpha, dim, precision_factor=0.05)), default "
+        "deltas = 0.25 % of the range, scalar deltas, limits entries as lists / (max, min), cell centres = arange(min, max + "
+        "delta, delta), the fall-back region (whole grid + RuntimeWarning) when the limits hold less than 1 - alpha: compared per "
+        "run with the documented rule in Python (correspondence 'hdc-grid-from-arguments'), no Lean model; the boundary-cell "
+        "oracle itself runs on the object's own grid in all these cases",
+        "order of long single contours": "contours above the cap (320 quick / 450 thorough points) are compared with the "
+        "model's order FROM THE START THE CODE CHOSE (up to 1500 / 4000 points); that this start is the optimal one is "
+        "compared only up to the cap",
         "ndimage.label / binary_erosion": "leaves; their outputs are compared with the model's boundary mask and components on every case",
         "NearestNeighbors": "leaf; k-NN lists enter the model as data",
         "optimal start": "numpy's pairwise summation vs the model's sequential sum: a different start is accepted only when the exact rational path costs tie within 1e-9",
@@ -923,6 +1194,8 @@ def main(ck):
     timed("A", lambda: run_hdc_batch(ck, gen_region_cases(rng, 5000 if thorough else 400, thorough)))
     timed("B", lambda: run_hdc_batch(ck, gen_hdc_cases(rng, 800 if thorough else 60, thorough), chunk=10))
     timed("B-default", lambda: run_hdc_batch(ck, gen_default_cases(rng, 8 if thorough else 2), chunk=10))
+    timed("B-default-path", lambda: run_hdc_batch(ck, gen_default_path_cases(rng, 36 if thorough else 6), chunk=3))
+    timed("B-unreachable", lambda: run_hdc_batch(ck, gen_unreachable_cases(rng, 60 if thorough else 8), chunk=10))
     timed("C", lambda: run_sorter_cases(ck, gen_sorter_cases(rng, 4000 if thorough else 250, thorough)))
     timed("L", lambda: process_label_only(ck, rng, 2000 if thorough else 200))
     ck.extra["part_wall_s"] = walls
